@@ -86,6 +86,8 @@ instance (a : Attr) : Decidable (WFAttr a) := by
 
 def WFAttrs (as : List Attr) : Prop := ∀ a ∈ as, WFAttr a
 
+instance (as : List Attr) : Decidable (WFAttrs as) := by unfold WFAttrs; exact inferInstance
+
 /-- the Go map after inserting the attributes in text order (duplicate key: last wins) -/
 def toMap (as : List Attr) : AttrMap := as.foldl (fun m a => m.insert a.1 a.2.raw) []
 
